@@ -63,7 +63,7 @@ package coregex
 //@   requires regexOK(r) && len(b) <= 140737488355328
 //@   modifies dst[*], @searchState
 //@   ensures len(result) >= len(dst) && (forall k :: 0 <= k && k < len(dst) ==> result[k] == old(dst[k]))
-//@   ensures genericEnum(r.engine) ==> len(result) - len(dst) == cnt(r.engine, r.engine.longest, b, 0, -1, normB(n))
+//@   ensures genericEnum(r.engine) ==> len(result) - len(dst) == cnt(r.engine, r.engine.longest, b, 0, false, normB(n))
 //@   ensures genericEnum(r.engine) ==> (forall k :: len(dst) <= k && k < len(result) ==> isRefMatch(r.engine, r.engine.longest, b, result[k][0], result[k][1]))
 //@   ensures forall k :: len(dst) <= k && k < len(result) ==> 0 <= result[k][0] && result[k][0] <= result[k][1] && result[k][1] <= len(b)
 //@   after call 2: forall k :: 0 <= k && k < len(dst) ==> dst[k] == old(dst[k])
@@ -75,16 +75,16 @@ package coregex
 //@   requires regexOK(r) && len(s) <= 140737488355328
 //@   modifies dst[*], @searchState
 //@   ensures len(result) >= len(dst) && (forall k :: 0 <= k && k < len(dst) ==> result[k] == old(dst[k]))
-//@   ensures genericEnum(r.engine) ==> len(result) - len(dst) == cnt(r.engine, r.engine.longest, stringBytes(s), 0, -1, normB(n))
+//@   ensures genericEnum(r.engine) ==> len(result) - len(dst) == cnt(r.engine, r.engine.longest, stringBytes(s), 0, false, normB(n))
 
 //@ func (*Regex).Count
 //@   props C04 C11 C07
 //@   requires regexOK(r) && len(b) <= 140737488355328
 //@   modifies @searchState
-//@   ensures result == cnt(r.engine, r.engine.longest, b, 0, -1, normB(n))
+//@   ensures result == cnt(r.engine, r.engine.longest, b, 0, false, normB(n))
 
 //@ func (*Regex).CountString
 //@   props C04 C11 C07
 //@   requires regexOK(r) && len(s) <= 140737488355328
 //@   modifies @searchState
-//@   ensures result == cnt(r.engine, r.engine.longest, stringBytes(s), 0, -1, normB(n))
+//@   ensures result == cnt(r.engine, r.engine.longest, stringBytes(s), 0, false, normB(n))
